@@ -23,12 +23,17 @@ open CifModel.Walk
 inductive ETree where
   | leaf (e : Ev)
   | node (s : Ev) (first second : List ETree) (e : Ev)
+  /-- not an element: entering here makes the walk fail with CIF_EMPTY_LOOP without any callback (a loop without packets
+      cannot be walked: `cif_loop_get_packets` answers CIF_EMPTY_LOOP; the property makes no claim about such CIFs, the tree
+      says what the code does so that the statements about END / error codes need no restriction) -/
+  | fail
 deriving Inhabited
 
 def itemTree (i : Str × V) : ETree := .leaf (.item i.1 i.2)
 def packetTree (pk : List (Str × V)) : ETree := .node (.pktStart pk) [] (pk.map itemTree) (.pktEnd pk)
 def loopTree (l : WLoop) : ETree :=
-  .node (.loopStart l.category l.names) [] (l.packets.map packetTree) (.loopEnd l.category l.names)
+  .node (.loopStart l.category l.names) []
+    (if l.packets.isEmpty then [.fail] else l.packets.map packetTree) (.loopEnd l.category l.names)
 
 mutual
   def contTree (depth : Nat) : WCont → ETree
@@ -48,6 +53,7 @@ mutual
   def flatten : ETree → List Ev
     | .leaf e => [e]
     | .node s g1 g2 e => s :: (flattenList g1 ++ (flattenList g2 ++ [e]))
+    | .fail => []
   def flattenList : List ETree → List Ev
     | [] => []
     | t :: ts => flatten t ++ flattenList ts
@@ -78,6 +84,7 @@ mutual
   /-- the pruning semantics of one element -/
   def run (p : Prog) : ETree → W → Out × W
     | .leaf e, w => (classify (p w.n e), (call p w e).2)
+    | .fail, w => (.stop EMPTY_LOOP, w)
     | .node s g1 g2 e, w =>
       if p w.n s = CONTINUE then
         match runList p g1 (call p w s).2 with
@@ -104,6 +111,17 @@ def finalCode : Out → Int
 def walkSpec (p : Prog) (c : WCif) : List Ev × Int :=
   let (o, w) := run p (cifTree c) W.init
   (w.log.reverse, finalCode o)
+
+mutual
+  /-- no failure point in the tree -/
+  def noFail : ETree → Bool
+    | .leaf _ => true
+    | .node _ g1 g2 _ => noFailList g1 && noFailList g2
+    | .fail => false
+  def noFailList : List ETree → Bool
+    | [] => true
+    | t :: ts => noFail t && noFailList ts
+end
 
 -- no loop without packets (`cif_walk` is specified only for such CIFs)
 mutual
